@@ -174,8 +174,8 @@ class C07(Check):
     def oracle(self, case, io):
         k = case['kind']
         if k == 'row':
-            v = OS.row_violation(io)
-            if v and v[0] in ('shape', 'op-element', 'param-order', 'caller-string', 'enumeration'):
+            v = OS.row_violation(io, ('shape', 'op-element', 'param-order', 'caller-string', 'enumeration'))
+            if v:
                 return ('C07:%s:%s' % (v[0], case['key']), v[1])
             return None
         if k == 'esc':
